@@ -126,7 +126,7 @@ def pixel_cases(ctx):
     nprng = np.random.default_rng(rng.randrange(1 << 30))
     lines, pend = [], []
     skipped = 0
-    for k in range(ctx.n(150, 1500)):
+    for k in range(ctx.n(150, 12000)):
         ch1, ch2, ch4, ch5 = gen_images(rng, nprng)
         with warnings.catch_warnings():
             warnings.simplefilter("ignore")
@@ -159,7 +159,7 @@ def pixel_cases(ctx):
 def pipeline_cases(ctx):
     rng = ctx.rng
     tabs = tables()
-    for k in range(ctx.n(6, 30)):
+    for k in range(ctx.n(6, 120)):
         fmt = rng.choice(["klmGac", "podGac"])
         fam = FMT[fmt]["family"]
         sid = 2 if fam == "klm" else 3          # NOAA-16 / NOAA-14
